@@ -14,3 +14,4 @@ import JominiModel.Props.C15
 #print axioms Jomini.Props.C15.C15_lexemes_flat
 #print axioms Jomini.Props.C15.C15_parse_back_flat
 #print axioms Jomini.Props.C15.C15_lexemes_nested
+#print axioms Jomini.Props.C15.C15_parse_back_nested
